@@ -84,7 +84,7 @@ theorem pieces_never_crash (P : Params) (hcfg : P.cfg = Generated.reflectCfg) (h
 /-- the one place where the resolver indexes a slice or array through reflect is guarded from both sides: the index parsed, is not negative,
     the value is a slice or an array, and the index is below its length (the model's `viaIndex` has exactly these guards) -/
 theorem source_index_guarded :
-    Generated.indexGuards = ["err == nil", "idx >= 0", "(v.Kind() == reflect.Slice || v.Kind() == reflect.Array)", "idx < v.Len()"] := by decide
+    Generated.indexLowerBound = true ∧ Generated.indexUpperBound = true ∧ Generated.indexKindChecked = true := by decide
 
 /-- the hypothesis on the reflect guards is needed: without the exported-field check a path through an unexported field panics (the
     pinned tree did; fix `c3dcf50`) -/
